@@ -59,6 +59,24 @@ notes_strength = {
  "agent2-C16": "strengthened on reading the change's description, before the first evaluation: self- and mutually recursive macros whose recursive call sits behind a segment switch or .org",
  "agent2-C17": "caught as the check stood",
  "agent2-C18": "strengthened: sources whose images exceed 1 MiB added to C18 (and C07)",
+ "agent3-C01": "caught as the check stood (high-address and operand-path slices)",
+ "agent3-C02": "caught as the check stood (via-macro variants)",
+ "agent3-C03": "caught as the check stood",
+ "agent3-C04": "strengthened: missed at first; every register / cross-product / kind-confusion line now also with registers through .def aliases and numbers through .equ symbols, and as a macro body with the operands as arguments",
+ "agent3-C05": "caught as the check stood (macro-argument context)",
+ "agent3-C06": "caught as the check stood",
+ "agent3-C07": "strengthened: caught at first only through EEPROM images over 64 KiB; declared memory sizes now vary per image and every device is written with both memories filled to the last byte",
+ "agent3-C08": "strengthened: missed at first; every program is built once more with unreferenced labels in front of its conditional directives (also those of nested chains in unselected branches)",
+ "agent3-C09": "caught as the check stood",
+ "agent3-C10": "caught as the check stood (mutant: .set line deleted)",
+ "agent3-C11": "strengthened: missed at first; include names written as ./name, dir/name, ./dir/name, ../dir/name under every search rule, plus the rule 'path as written from the working directory'",
+ "agent3-C12": "caught as the check stood (zero-capacity memories)",
+ "agent3-C13": "caught as the check stood (forbidden form after allowed instructions incl. the same mnemonic)",
+ "agent3-C14": "strengthened: missed at first; comment texts now contain /*, */, @0, quotes, backslashes, non-ASCII, directive look-alikes",
+ "agent3-C15": "strengthened: missed at first; every single-line fault kind and .message/.warning lines also inside macro bodies behind blank and comment-only lines",
+ "agent3-C16": "strengthened: caught at first by one random mutation only; multi-byte / zero-width / control characters next to every special character in every lexical position, at top level and inside called macro bodies; dictionary lines also inside macro bodies and conditional branches (this also found a genuine panic, fixed in 7410e14)",
+ "agent3-C17": "strengthened: missed at first; builds ending at the assembler's own resource limits added to C17's pool; generic 'hostile history' (fw.rs) runs such builds before every 16th in-process build of every monitor",
+ "agent3-C18": "caught as the check stood (demo.sh adapted to run in the tree it is started in)",
 }
 for f in sorted(glob.glob(f"{ROOT}/seeded/*/meta.json")):
     m = json.load(open(f))
